@@ -566,19 +566,17 @@ func runC08(ctx *core.Ctx, pool *par.Pool) {
 		depth, seedDepth = 8, 7
 		ctx.SetBudget(28 * time.Minute)
 	}
-	full := ctx.Deadline
 	var total xstate.Stats
 	plans, effective, histories, calls := 0, 0, 0, 0
 	outcomes := map[string]int{}
 	runs := plan(cfgs, []seed{seedTwo, seedWAL, seedTail, seedFull}, depth, seedDepth)
-	for ri, run := range runs {
+	share := ctx.Budget() / time.Duration(len(runs))
+	for _, run := range runs {
 		cfg := run.Cfg
 		sigs := map[string]bool{}
 		var tasks []FaultTask
-		ctx.Deadline = ctx.Start.Add(full.Sub(ctx.Start) * time.Duration(ri+1) / time.Duration(len(runs)+1) / 2)
-		if ctx.Expired() {
-			ctx.Deadline = time.Now().Add(5 * time.Second)
-		}
+		endRun := ctx.Phase(share)
+		endBFS := ctx.Phase(share * 3 / 10)
 		st := xstate.BFS(ctx, pool, xstate.Spec{Cfg: cfg, Seed: run.Seed.Ops, Alphabet: faultAlphabet(ctx.Quick()), MaxDepth: run.Depth, Flags: []string{"iolog"},
 			OnTransition: func(from *xstate.Node, s *xstate.Succ, isNew bool, to *xstate.Node) {
 				sig := s.IOSig
@@ -608,7 +606,7 @@ func runC08(ctx *core.Ctx, pool *par.Pool) {
 				sigs[sig] = true
 				tasks = append(tasks, FaultTask{Type: "fault", Cfg: cfg.Name, Path: append(from.Path(), s.Op), Bursts: bursts})
 			}})
-		ctx.Deadline = full
+		endBFS()
 		total.States += st.States
 		total.Transitions += st.Transitions
 		ctx.Set("depth_"+run.name(), st.Depth)
@@ -653,8 +651,9 @@ func runC08(ctx *core.Ctx, pool *par.Pool) {
 			}
 		}, func(int) { skipped++ })
 		if skipped > 0 {
-			ctx.Cap("cfg %s: deadline reached, %d of %d histories not fault-tested", cfg.Name, skipped, len(tasks))
+			ctx.Cap("%s: deadline reached, %d of %d histories not fault-tested", run.name(), skipped, len(tasks))
 		}
+		endRun()
 	}
 	ctx.Set("states", total.States)
 	ctx.Set("transitions", total.Transitions)
